@@ -237,7 +237,7 @@ def ops_label(n: sem.Node) -> str:
     if not s:
         for x in n.walk():
             if x.kind == "int":
-                s.add("literal:" + str(x.flag))
+                s.add("literal-" + str(x.flag))
             elif x.kind == "id":
                 s.add("identifier")
     return "ops:" + ",".join(sorted(s))
@@ -249,9 +249,46 @@ def _is_boolnode(n: sem.Node) -> bool:
     return (n.kind == "bin" and n.op in sem.BOOLOPS) or (n.kind == "un" and n.op == "!") or n.kind == "defined"
 
 
+PREC_CLASS = {"||": "logical-or", "&&": "logical-and", "|": "bit-or", "^": "bit-xor", "&": "bit-and",
+              "==": "equality", "!=": "equality", "<": "relational", "<=": "relational", ">": "relational",
+              ">=": "relational", "<<": "shift", ">>": "shift", "+": "additive", "-": "additive",
+              "*": "multiplicative", "/": "multiplicative", "%": "multiplicative"}
+
+
+def _node_class(n: sem.Node) -> str:
+    if n.kind == "bin":
+        return PREC_CLASS[n.op]
+    if n.kind == "un":
+        return "logical-not" if n.op == "!" else "unary-sign"
+    if n.kind == "suf":
+        return "size-suffix"
+    return n.kind
+
+
+def _walk_outside_parens(n: sem.Node):
+    """Parenthesised groups are atoms for precedence: do not look inside them."""
+    yield n
+    if n.kind != "paren":
+        for k in n.kids:
+            yield from _walk_outside_parens(k)
+
+
+def _value_text(n: sem.Node, env: dict) -> Optional[str]:
+    try:
+        v, _t = sem.eval_node(n, env)
+    except (sem.Excluded, sem.Outside):
+        return None
+    return str(v) if v >= 0 else f"(0 - {-v})"
+
+
 def diagnose_expr(node: sem.Node, src: str, env: dict) -> Optional[tuple]:
-    """Smallest sub-tree of `node` that fails when evaluated on its own ->
-    (clause, disc, detail) or None when every sub-tree (including the whole) is right."""
+    """Smallest sub-tree X of `node` that fails when evaluated on its own, reduced further:
+    * X with its operands replaced by the literal values they stand for still fails
+        -> the root operator / suffix / literal itself is mis-evaluated: disc `ops:<root>`
+    * otherwise the operands are combined in the wrong order: the smallest sub-tree Y of X whose
+      explicit parenthesisation repairs X names the binding that is wrong:
+        disc `precedence:<class of Y> binds looser than <class of the operator above it>`
+    -> (clause, disc, detail) or None when every sub-tree (including the whole) is right."""
     subs = sorted(node.walk(), key=lambda x: (x.b - x.a, x.a))
     seen = set()
     for x in subs:
@@ -265,22 +302,81 @@ def diagnose_expr(node: sem.Node, src: str, env: dict) -> Optional[tuple]:
         how = _fails(exp, got)
         if how is None:
             continue
-        label = ops_label(x)
+        want = fmt(exp[1]) if exp[0] == "v" else f"undefined ({exp[1]})"
+        clause = "C19.bool-value" if _is_boolnode(x) else "C19.expr-value"
+        detail = f"`{sub}` -> {got[1:] if got[0] == 'exc' else fmt(got[1]) if got[0] == 'v' else got}; semantics: {want}"
+
+        def result(label: str, cause: Optional[str] = None, g: Optional[tuple] = None, cl: Optional[str] = None) -> tuple:
+            # the clause follows the *cause* that was isolated, not the way the whole expression failed
+            g = g or got
+            if (cause or how) == "exc":
+                return ("C19.error-type", f"{label}:{g[1] if g[0] == 'exc' else g[0]}", detail)
+            return (cl or clause, label, detail)
+
         chars = [y for y in x.walk() if y.kind == "int" and y.flag == "char"]
         if len(chars) >= 2:
             # do two character literals on one line explain it?  replace them by equal numbers
-            alt = src[x.a:x.b]
+            alt = sub
             for y in sorted(chars, key=lambda y: -y.a):
                 alt = alt[:y.a - x.a] + str(y.val) + alt[y.b - x.a:]
             e2, g2 = probe(alt, env)
             if _fails(e2, g2) is None:
-                label = "char-literals-on-one-line"
-        want = fmt(exp[1]) if exp[0] == "v" else f"undefined ({exp[1]})"
-        if how == "exc":
-            return ("C19.error-type", f"{label}:{got[1] if got[0] == 'exc' else got[0]}",
-                    f"`{sub}` -> {got[1:] if got[0] == 'exc' else got}; semantics: {want}")
-        clause = "C19.bool-value" if _is_boolnode(x) else "C19.expr-value"
-        return (clause, label, f"`{sub}` evaluates to {fmt(got[1])}, semantics: {want}")
+                return result("two-char-literals-on-one-line", "value", cl="C19.parse-dict")
+        if not x.kids:
+            return result(ops_label(x))
+        # (1) operands replaced by their values
+        red = sub
+        okred = True
+        for k in sorted(x.kids, key=lambda k: -k.a):
+            vt = _value_text(k, env)
+            if vt is None:
+                okred = False
+                break
+            red = red[:k.a - x.a] + vt + red[k.b - x.a:]
+        if okred and x.kind != "suf":
+            e2, g2 = probe(red, env)
+            f2 = _fails(e2, g2)
+            if f2 is not None:
+                return result("ops:" + (x.op if x.kind == "bin" else "unary" + x.op if x.kind == "un" else x.kind), f2, g2)
+        elif x.kind == "suf" and x.kids[0].kind in ("int", "id"):
+            return result("ops:." + x.op)
+        # (2) the operands are combined in the wrong order: shrink X to a minimal failing core by
+        # replacing sub-trees with the literal values they stand for while the failure persists
+        core_text = sub
+        for _round in range(8):
+            try:
+                tree = sem.expr_tree(core_text)
+            except sem.BDSyntax:
+                break
+            changed = False
+            for z in sorted(tree.walk(), key=lambda z: -(z.b - z.a)):
+                if z is tree or not z.kids or z.kind == "paren" or (z.kind == "suf" and z.kids[0].kind == "int"):
+                    continue
+                try:
+                    v, _t = sem.eval_node(z, env)
+                except (sem.Excluded, sem.Outside):
+                    continue
+                if v < 0:
+                    continue
+                alt = core_text[:z.a] + str(v) + core_text[z.b:]
+                e2, g2 = probe(alt, env)
+                if _fails(e2, g2) is not None:
+                    core_text = alt
+                    changed = True
+                    break
+            if not changed:
+                break
+        try:
+            tree = sem.expr_tree(core_text)
+            classes = sorted({_node_class(z) for z in _walk_outside_parens(tree) if z.kind in ("bin", "un", "suf")})
+        except sem.BDSyntax:
+            classes = []
+        detail += f"; minimal failing form `{core_text}`"
+        if "size-suffix" in classes:
+            return result("precedence:size-suffix binds looser than the operator before its operand", "value")
+        if classes:
+            return result("precedence:" + " / ".join(classes), "value")
+        return result("structure:" + ops_label(x)[4:])
     return None
 
 
@@ -378,11 +474,12 @@ def check_case(case: dict, cnt: dict, deep: bool = True) -> list:
         _count(cnt, "unsupported_constructs")
         if got[0] == "spsdk":
             _count(cnt, "unsupported_refused")
+        elif unsupported.startswith("extern()"):
+            viol.append(("C19.source-resolve", unsupported, f"not refused with SPSDKError; outcome {fmt(got)}"))
         elif got[0] == "exc":
             viol.append(("C19.error-type", f"{unsupported}:{got[1]}", f"{got[1]}: {got[2]}"))
         else:
-            cl = "C19.source-resolve" if unsupported.startswith("extern()") else "C19.unsupported-accepted"
-            viol.append((cl, unsupported, f"not refused; result {fmt(got[1:])}"))
+            viol.append(("C19.unsupported-accepted", unsupported, f"not refused; result {fmt(got[1:])}"))
         return viol
 
     assert pr is not None
@@ -393,7 +490,7 @@ def check_case(case: dict, cnt: dict, deep: bool = True) -> list:
             _count(cnt, f"excluded_outcome:{got[0]}" + (":" + got[1] if got[0] == "exc" else ""))
             if reason == "leading-zero-literal" and got[0] == "exc":
                 d = _diag_exprs(pr, text, only_exc=True)
-                viol.extend(d or [("C19.error-type", f"ops:literal:leading-zero:{got[1]}", f"{got[1]}: {got[2]}")])
+                viol.extend(d or [("C19.error-type", f"ops:literal-leading-zero:{got[1]}", f"{got[1]}: {got[2]}")])
         else:
             _count(cnt, "outside_subset")
         return viol
@@ -464,7 +561,9 @@ def _filedir(case: dict) -> str:
     cache = _W.setdefault("filedirs", {})
     d = cache.get(key)
     if d is None:
-        base = os.environ.get("VERIF_WORKDIR") or "/var/tmp/vf-c19"
+        import tempfile
+
+        base = os.environ.get("VERIF_WORKDIR") or os.path.join(tempfile.gettempdir(), "vf-c19-files")
         d = os.path.join(base, f"c19-files-{os.getpid()}-{key}")
         os.makedirs(d, exist_ok=True)
         for name, data in files.items():
@@ -552,10 +651,7 @@ def check_one_command(kind: str, args: dict, keyblobs: list, files: dict, fdir: 
         return [("C19.command", f"{cls}:export", f"{kind} {fmt(args)}: exported {len(raw)} bytes")]
     if not dec["checksum_ok"]:
         viol.append(("C19.command", f"{cls}:checksum", f"{kind} {fmt(args)}"))
-    for f in ("tag", "address", "count", "data", "flags"):
-        if f in exp and dec[f] != exp[f]:
-            viol.append(("C19.command", f"{cls}:{f}",
-                         f"{kind} {fmt(args)}: header {f} = {dec[f]:#x}, expected {exp[f]:#x}"))
+    viol.extend(_header_diff(cls, kind, args, exp, dec, ""))
     pay = exp.get("payload")
     if pay is not None:
         body = dec["payload"]
@@ -621,6 +717,8 @@ LITERALS = (
                             "255", "256", "65536", "4294967296", "1K", "'a'", "c3", "c7")
        for s in "bhw"]
     + ["(0x155).b", "(c7).h", "(1 + 0x1FF).b", "0x155.b.b", "0x12345.w.b"]
+    + ["'#'", "'\"'", "';'", "'/'", "'//'", "'}'", "1 /* c */ + 2", "8 / /* c */ 2", "8 /2", "8/ 2", "8 /* a */ / /* b */ 2",
+       "1 +\n    2", "(\n    1 + 2\n    )", "1 + // one\n    2", "1 + # one\n    2", "1 /* a\n b */ + 2"]
 )
 
 
@@ -702,18 +800,8 @@ def render(tokens: tuple, leaves: tuple, mode: str) -> str:
     return s
 
 
-def arith_leaves(m: int, unary: bool, tier: str) -> list:
-    if m <= 2:
-        return list(itertools.product(S_FULL, repeat=m))
-    if m == 3 and not unary:
-        return list(itertools.product(S3, repeat=3))
-    seqs = SEQS if tier == "thorough" else SEQS[:2]
-    return [tuple(s[:m]) for s in seqs]
-
-
 SB_FULL = ["0", "1", "2", "3", "c3", "defined(c3)", "defined(zz)", "0xFFFFFFFF"]
 SB3 = ["0", "1", "2", "3"]
-SB4 = ["0", "1", "2"]
 BSEQS = [["2", "1", "0", "3", "1", "0"], ["0", "1", "2", "3", "2", "1"], ["1", "1", "0", "0", "2", "2"],
          ["3", "2", "1", "0", "1", "2"]]
 
@@ -724,7 +812,7 @@ def bool_leaves(m: int, tier: str) -> list:
     if m == 3:
         return list(itertools.product(SB3, repeat=3))
     if m == 4 and tier == "thorough":
-        return list(itertools.product(SB4, repeat=4))
+        return list(itertools.product(["0", "2"], repeat=4)) + [tuple(s[:4]) for s in BSEQS]
     return [tuple(s[:m]) for s in BSEQS]
 
 
@@ -813,7 +901,7 @@ def render_structure(seq: tuple, files: dict) -> dict:
     if "f3" in have:
         st.append("    load f3 > 0x3000;\n")
     if "K3" in have:
-        st.append("    erase K1..K3;\n")
+        st.append("    erase (K1)..K3;\n")
     if "kb0" in have and "f2" in have:
         st.append("    encrypt (0) {\n        load f2 > 0x1000;\n    }\n")
     if "kb1" in have:
@@ -887,6 +975,10 @@ def layout_cases(files: dict) -> list:
                 "num+str": f',\n        end = 0x1400,\n        key = "{KEY0}"'}[f"{pair[0]}+{pair[1]}"]
         for name, text in layouts("keyblob (0) { (", [a, b], tail=rest + "\n    )\n}"):
             add("keyblob", pair, name, text + "section (0) {\n    keywrap (0) {\n        load {{" + KEY1.lower() + "}} > 0x100;\n    }\n}\n")
+    for i, v in enumerate(['"a#b"', '"a//b"', '"a /* b */ c"', '"it\'s"', '"semi;colon"', '"brace}"', '"{{aa}}"', '" lead"',
+                           '""', '"(x = 1)"', '"x\\y"']):
+        add("options", ("str", "int"), f"special-string-{i}", f"options {{\n    a = {v};\n    b = 1;\n}}\n")
+        add("sources", ("str", "str"), f"special-string-{i}", f"sources {{\n    s = {v};\n}}\n")
     stm = {"file": ('load "f1.bin" > 0x100;', 'load "f2.bin" > 0x200;'), "erase": ("erase 0x100..0x200;", "erase all;"),
            "blob": ("load {{aa bb cc dd}} > 0x10;", "load {{01 02}} > 0x20;"), "char": ("jump 0x10 ('a');", "version_check sec 'b';"),
            "fill": ("load 0x11223344 > 0x100..0x200;", "load 0xC1503057 > 0x300;")}
@@ -1059,6 +1151,64 @@ UNSUPPORTED = {
 }
 
 
+# family 6: one parser object used for two programs in a row (state must not leak)
+REUSE = [
+    "constants {\n    A = 1;\n    B = A + 1;\n}\noptions {\n    o = A + B;\n}\n",
+    "constants {\n    A = 2;\n}\noptions {\n    o = A;\n    p = defined(B);\n}\n",
+    "options {\n    o = defined(A);\n    A = 5;\n}\n",
+    'sources {\n    A = "f1.bin";\n    s = extern(0);\n}\nsection (0) {\n    load A > 0x10;\n    load s > 0x20;\n}\n',
+    'sources {\n    s = extern(1);\n}\nsection (1) {\n    load s > 0x20;\n}\n',
+    "constants {\n    s = 4;\n}\nsection (s) {\n    erase 0..s;\n}\n",
+    f'keyblob (0) {{\n    (\n        start = 0,\n        end = 0x400,\n        key = "{KEY0}",\n        counter = "{CTR0}"\n    )\n}}\nsection (0) {{\n}}\n',
+    f'keyblob (0) {{\n    (\n        start = 0x800,\n        end = 0xC00,\n        key = "{KEY1}",\n        counter = "{CTR1}"\n    )\n}}\n',
+    "section (0) {\n    erase all;\n}\nsection (1) {\n    jump 4;\n}\n",
+    "section (2) {\n}\n",
+    "options {\n    x = 1;\n}\n",
+    "",
+    "section (0) {\n    erase all;\n    if 1 {\n    }\n}\n",
+    "constants {\n    A = 7;\n}\nsection (0) {\n    load 1 > ;\n}\n",
+    'sources {\n    B = "f2.bin" (x = 1);\n}\n',
+    "constants {\n    A = 1 / 0;\n}\n",
+]
+
+
+def check_reuse_pair(case: dict, cnt: dict) -> list:
+    """parse(first) then parse(second) on ONE parser object == parse(second) on a fresh one."""
+    BDParser, SPSDKError = _spsdk()
+    first, second = case["first"], case["bd"]
+    ext = list(case.get("extern") or [])
+    fresh = run_bd(second, ext)
+    p = BDParser()
+    signal.alarm(CASE_TIMEOUT)
+    try:
+        try:
+            p.parse(first, list(ext))
+        except Exception:  # noqa
+            pass
+        try:
+            d = p.parse(second, list(ext))
+            again: tuple = ("ok", d) if d is not None else ("none",)
+        except SPSDKError as e:
+            again = ("spsdk", str(e).split("\n")[0][:120])
+        except Exception as e:  # noqa
+            again = ("exc", type(e).__name__, _short(str(e)))
+    except core.Watchdog:
+        return [("C19.terminates", "parser-reuse:watchdog", "")]
+    finally:
+        signal.alarm(0)
+    _count(cnt, "programs")
+    _count(cnt, "executions", 3)
+    _count(cnt, "judged")
+    if again != fresh:
+        return [("C19.parser-reuse", f"{fresh[0]}-vs-{again[0]}",
+                 f"after parsing {first!r} the same parser object answers {fmt(again)}; a fresh parser answers {fmt(fresh)}")]
+    return []
+
+
+def reuse_cases() -> list:
+    return [{"kind": "reuse", "first": a, "bd": b, "extern": ["e0.bin", "e1.bin"]} for a in REUSE for b in REUSE]
+
+
 def unsupported_cases() -> list:
     out = []
     for name, text in UNSUPPORTED.items():
@@ -1071,13 +1221,28 @@ def unsupported_cases() -> list:
 # load_from_config on a representative of every statement class, and the byteSwap option
 
 
-def _compare_raw(cls: str, kind: str, args: dict, exp: dict, raw: bytes) -> list:
+def _header_diff(cls: str, kind: str, args: dict, exp: dict, dec: dict, pre: str) -> list:
     viol = []
-    dec = sem.decode_command(raw)
-    for f in ("tag", "address", "count", "data", "flags"):
+    if exp.get("tag") == sem.TAGS["PROG"] and dec["tag"] == exp["tag"]:
+        # the two data words and the 8-byte flag are one operand
+        bad = [f for f in ("count", "data", "flags") if f in exp and dec[f] != exp[f]]
+        if bad:
+            viol.append(("C19.command", f"{cls}:data-words",
+                         f"{pre}{kind} {fmt(args)}: word1/word2/flags = {dec['count']:#x}/{dec['data']:#x}/{dec['flags']:#x}, "
+                         f"expected {exp.get('count', 0):#x}/{exp.get('data', 0):#x}/{exp.get('flags', dec['flags']):#x}"))
+        fields: tuple = ("tag", "address")
+    else:
+        fields = ("tag", "address", "count", "data", "flags")
+    for f in fields:
         if f in exp and dec[f] != exp[f]:
             viol.append(("C19.command", f"{cls}:{f}",
-                         f"load_from_config: {kind} {fmt(args)}: header {f} = {dec[f]:#x}, expected {exp[f]:#x}"))
+                         f"{pre}{kind} {fmt(args)}: header {f} = {dec[f]:#x}, expected {exp[f]:#x}"))
+    return viol
+
+
+def _compare_raw(cls: str, kind: str, args: dict, exp: dict, raw: bytes) -> list:
+    dec = sem.decode_command(raw)
+    viol = _header_diff(cls, kind, args, exp, dec, "load_from_config: ")
     pay = exp.get("payload")
     if pay is not None and dec["payload"][:len(pay)] != pay:
         how = "payload-byte-order" if len(pay) > 1 and dec["payload"][:len(pay)] == pay[::-1] else "payload"
@@ -1185,6 +1350,8 @@ def _strip(case: dict) -> dict:
 def run_one(case: dict, cnt: dict) -> list:
     if case.get("kind") == "byteswap":
         return check_byteswap(case, cnt)
+    if case.get("kind") == "reuse":
+        return check_reuse_pair(case, cnt)
     before = cnt.get("compared_equal", 0) + cnt.get("unsupported_constructs", 0)
     v = check_case(case, cnt)
     if case.get("lfc"):
@@ -1258,7 +1425,7 @@ def _arith_scheme(m: int, u: int, n: int, tier: str) -> list:
         return list(itertools.product(S3, repeat=m))
     if m <= 2:
         return list(itertools.product(S3, repeat=m))
-    seqs = SEQS if tier == "thorough" else SEQS[:2]
+    seqs = SEQS if (tier == "thorough" and n <= 4) else SEQS[:2]
     return [tuple(s[:m]) for s in seqs]
 
 
@@ -1273,6 +1440,9 @@ def _init_worker() -> None:
         resource.setrlimit(resource.RLIMIT_AS, (8 << 30, 8 << 30))
     except (ValueError, OSError):
         pass
+    import logging
+
+    logging.disable(logging.CRITICAL)
     _spsdk()
 
 
@@ -1315,12 +1485,18 @@ def _chunks(xs: list, n: int) -> list:
 def build_tasks(tier: str, seed: int) -> list:
     plan = _plan(tier)
     files = seeded_files(seed)
-    tasks: list = [{"fam": "literals", "label": "literals"}]
+    g0 = structure_grammar(1)
+    base = [dict({"bd": expr_program("1 + 2")}, must_accept=True),
+            dict({"bd": expr_program("c3 < c7 && !0")}, must_accept=True),
+            dict(stmt_program([("0", ["load-source", "erase-range", "jump"])], files), must_accept=True),
+            dict(render_structure(g0.unrank(("pre", (0, 0, 0, 0)), 4, 0), files), must_accept=True)]
+    tasks: list = [{"fam": "list", "label": "base", "cases": base}, {"fam": "literals", "label": "literals"}]
     tasks += [{"fam": "list", "label": "unsupported", "cases": unsupported_cases()}]
     tasks += [{"fam": "list", "label": "byteswap", "cases": [{"kind": "byteswap", "bd": "", "files": files}]}]
+    tasks += [{"fam": "list", "label": "parser-reuse", "cases": reuse_cases()}]
     for ch in _chunks(layout_cases(files), 100):
         tasks.append({"fam": "list", "label": "layout", "cases": ch})
-    reps = [stmt_program([("0", [n])], files, OPERANDS[1], lfc=True) for n in STMTS]
+    reps = [stmt_program([("0", [n])], files, OPERANDS[2], lfc=True) for n in STMTS]
     reps += [stmt_program([("VER", ["erase-all", "jump"]), ("1", []), ("7", ["load-source"])], files, OPERANDS[1], lfc=True)]
     for ch in _chunks(reps, 12):
         tasks.append({"fam": "list", "label": "load_from_config", "cases": ch})
@@ -1420,6 +1596,7 @@ def run(ctx: core.Ctx) -> None:
         ctx.counters["total:" + k] = v
     ctx.cov["families"] = {lab: dict(sorted(d.items())) for lab, d in sorted(fams.items())}
     ctx.cov["evaluations"] = tot.get("executions", 0) + tot.get("statements", 0) + tot.get("load_from_config_runs", 0)
+    ctx.counters["evaluations"] = ctx.cov["evaluations"]
     ctx.cov["programs"] = tot.get("programs", 0)
     ctx.cov["distinct_nontrivial"] = tot.get("judged", 0)
     plan = _plan(tier)
@@ -1452,6 +1629,9 @@ def run(ctx: core.Ctx) -> None:
 
 
 def replay(ctx: core.Ctx, rec: dict) -> bool:
+    import logging
+
+    logging.disable(logging.CRITICAL)
     signal.signal(signal.SIGALRM, core._alarm)
     case = rec["case"]
     cnt: dict = {}
